@@ -10,10 +10,12 @@
 (***************************************************************************)
 EXTENDS Integers, Sequences, FiniteSets, TLC, SMGJson
 
-CONSTANTS NAtoms, SampleMod
+CONSTANTS NAtoms, SampleMod, PairMode     \* PairMode: all ordered element pairs at 0.9 / 1.1 of the cutoff
 
-Radius(e) == CASE e = 1 -> 32 [] e = 6 -> 75 [] e = 7 -> 71 [] e = 8 -> 63 [] e = 9 -> 64 [] e = 15 -> 111
-               [] e = 16 -> 103 [] e = 17 -> 99 [] e = 35 -> 114 [] e = 53 -> 133 [] e = 78 -> 123 [] e = 11 -> 155
+(* single-bond covalent radii of all 118 elements in 0.01 A (Pyykko & Atsumi, Chem. Eur. J. 2009, 15, 12770,
+   as tabulated in stereomolgraph.periodic_table at the pinned commit; frozen here as spec data) *)
+RadiusTable == <<32, 46, 133, 102, 85, 75, 71, 63, 64, 67, 155, 139, 126, 116, 111, 103, 99, 96, 196, 171, 148, 136, 134, 122, 119, 116, 111, 110, 112, 118, 124, 121, 121, 116, 114, 117, 210, 185, 163, 154, 147, 138, 128, 125, 125, 120, 128, 136, 142, 140, 140, 136, 133, 131, 232, 196, 180, 163, 176, 174, 173, 172, 168, 169, 168, 167, 166, 165, 164, 170, 162, 152, 146, 137, 131, 129, 122, 123, 124, 133, 144, 144, 151, 145, 147, 142, 223, 201, 186, 175, 169, 170, 171, 172, 166, 166, 168, 168, 165, 167, 173, 176, 161, 157, 149, 143, 141, 134, 129, 128, 121, 122, 136, 143, 162, 175, 165, 157>>
+Radius(e) == RadiusTable[e]
 Els == <<1, 6, 8, 17, 78, 53>>
 Pool == << <<0,0,0>>, <<95,0,0>>, <<110,0,0>>, <<152,0,0>>, <<0,121,0>>, <<0,183,0>>, <<101,100,0>>,
            <<0,0,143>>, <<232,0,0>>, <<151,150,149>>, <<-88,3,7>>, <<40,-60,210>> >>
@@ -30,16 +32,24 @@ Clear == \A i, j \in Idx : i < j =>
             LET x == Lhs(Pool[pts[i]], Pool[pts[j]]) - Rhs(Els[els[i]], Els[els[j]]) IN x > Margin \/ x < -Margin
 Code == (pts[1] * 7 + pts[NAtoms] * 13 + els[1] * 31 + els[NAtoms] * 101
          + (IF NAtoms > 2 THEN pts[2] * 17 + els[2] * 3 ELSE 0))
-Init == /\ pts \in [Idx -> 1..Len(Pool)] /\ \A i, j \in Idx : i < j => pts[i] < pts[j]
-        /\ els \in [Idx -> 1..Len(Els)]
-        /\ (SampleMod <= 1 \/ Code % SampleMod = 0)
-        /\ Clear
+(* pair mode: els = <<e1, e2>> over ALL elements, pts = <<1, k>> with k = 1 (inside) or 2 (outside the cutoff) *)
+Cut100(e, f) == (12 * (Radius(e) + Radius(f))) \div 10            \* cutoff in 0.01 A, rounded down
+PairPoint(e, f, k) == IF k = 1 THEN <<(Cut100(e, f) * 9) \div 10, 0, 0>> ELSE <<(Cut100(e, f) * 11) \div 10 + 2, 0, 0>>
+Init == IF PairMode
+          THEN /\ els \in [1..2 -> 1..118] /\ pts \in { <<1, 1>>, <<1, 2>> }
+               /\ (SampleMod <= 1 \/ (els[1] * 119 + els[2] + pts[2]) % SampleMod = 0)
+          ELSE /\ pts \in [Idx -> 1..Len(Pool)] /\ \A i, j \in Idx : i < j => pts[i] < pts[j]
+               /\ els \in [Idx -> 1..Len(Els)]
+               /\ (SampleMod <= 1 \/ Code % SampleMod = 0)
+               /\ Clear
 Next == UNCHANGED vars
 Spec == Init /\ [][Next]_vars
 
-Bonded(i, j) == i # j /\ Lhs(Pool[pts[i]], Pool[pts[j]]) < Rhs(Els[els[i]], Els[els[j]])
+ElOf(i) == IF PairMode THEN els[i] ELSE Els[els[i]]
+PtOf(i) == IF PairMode THEN (IF i = 1 THEN <<0, 0, 0>> ELSE PairPoint(els[1], els[2], pts[2])) ELSE Pool[pts[i]]
+Bonded(i, j) == i # j /\ Lhs(PtOf(i), PtOf(j)) < Rhs(ElOf(i), ElOf(j))
 Emit == PrintT("K|" \o JObj(<<
-   JKV("els", JIntSeq([i \in Idx |-> Els[els[i]]])),
-   JKV("pts", JArr([i \in Idx |-> JIntSeq(Pool[pts[i]])])),
+   JKV("els", JIntSeq([i \in Idx |-> ElOf(i)])),
+   JKV("pts", JArr([i \in Idx |-> JIntSeq(PtOf(i))])),
    JKV("bonds", JSetArr({ JIntSeq(<<q[1], q[2]>>) : q \in { r \in Idx \X Idx : r[1] < r[2] /\ Bonded(r[1], r[2]) } })) >>))
 =============================================================================
